@@ -200,8 +200,8 @@ func clustersim(args []string) error {
 	}
 
 	if *kind == "delswallow" {
-		// isolate stage of c04-del-merge-swallows-errors: a DEL that the only remaining replica
-		// cannot commit (no quorum) must not be answered with a count
+		// strict stage (former isolate stage of c04-del-merge-swallows-errors, repaired as d21256b): a
+		// DEL that the only remaining replica cannot commit (no quorum) must not be answered with a count
 		h.add(trace.M{"ev": "reset", "weak": false, "st": cur})
 		ld := s.leader()
 		if ld == 0 {
